@@ -1,6 +1,8 @@
 pub mod chain;
 pub mod events;
 pub mod e1;
+pub mod e2;
+pub mod sched;
 pub mod gen;
 pub mod model;
 pub mod panics;
